@@ -149,8 +149,7 @@ func mixinDoc(d *D, idx int, cfg MixinCfg) O {
 	if d.Pct(80) {
 		paths := O{}
 		// ids are unique within one document: drawn without replacement from a small pool
-		idPool := []string{"op0", "op1", "op2", "op3", "op4", "op5", "op6", "op7", "op8", "op9", "op10", "op11"}
-		next := 0
+		avail := []string{"op0", "op1", "op2", "op3", "op4", "op5", "op6", "op7"}
 		pathPool := []string{"/a", "/b", "/c", "/d"}
 		pathPct, methPct := 40, 30
 		if cfg.IDFocus {
@@ -162,14 +161,11 @@ func mixinDoc(d *D, idx int, cfg MixinCfg) O {
 			pi := O{}
 			for _, m := range d.Subset(apiMethods, methPct) {
 				op := O{"responses": O{"200": O{"description": sf("doc%d", idx)}}}
-				if d.Pct(70) && next < len(idPool) {
-					if cfg.IDFocus && d.Pct(30) {
-						next++ // skip one: not every document uses the same ids
-					}
-					if next < len(idPool) {
-						op["operationId"] = idPool[next]
-						next++
-					}
+				if d.Pct(70) && len(avail) > 0 {
+					// unique within the document: drawn without replacement
+					i := d.Int(0, len(avail)-1)
+					op["operationId"] = avail[i]
+					avail = append(avail[:i:i], avail[i+1:]...)
 				} else {
 					d.Label(sf("op-without-id:%s", side(idx)))
 				}
